@@ -552,6 +552,9 @@ class ProgGen(object):
                 ops.append({'kind': 'op', 'op': 'AddVariable', 'sector': govid, 'name': 'DEM_' + nm['GOOD'], 'eqn': '0.0'})
                 ops.append({'kind': 'op', 'op': 'SetExogenous', 'sector': govid, 'name': 'DEM_' + nm['GOOD'],
                             'value': '[%s]*40' % gval})
+        # a sector-specific tax rate (TaxFlow uses the sector's own TaxRate variable when it has one)
+        if (with_gov or tax_to) and rng.random() < 0.25:
+            ops.append({'kind': 'op', 'op': 'AddVariable', 'sector': hh, 'name': 'TaxRate', 'eqn': '%0.4f' % rng.uniform(0.05, 0.3)})
         # a gift inside the country
         if with_gov and rng.random() < 0.35:
             ops.append({'kind': 'op', 'op': 'AddVariable', 'sector': govid, 'name': 'GIFT', 'eqn': str(_fmt(rng.uniform(0.5, 3), 2))})
@@ -642,7 +645,11 @@ class ProgGen(object):
             supcls = [st for st in steps if st.get('id') == sup][0]['cls']
             if supcls == 'FixedMarginBusinessMultiOutput':
                 ops.append({'kind': 'op', 'op': 'AddMarket', 'sector': sup, 'market': mkt})
-            share = '%s*DEM_%s' % (_fmt(rng.uniform(0.05, 0.3), 2), infos[a]['nm']['GOOD'])
+            if rng.random() < 0.4:
+                # allocation written with a name requested before main() (REG-style import propensity)
+                share = '%s*{%s:INC}' % (_fmt(rng.uniform(0.02, 0.1), 3), infos[a]['sectors']['HH'])
+            else:
+                share = '%s*DEM_%s' % (_fmt(rng.uniform(0.05, 0.3), 2), infos[a]['nm']['GOOD'])
             home = infos[a]['sectors']['BUS']
             home_has_rule = any(o.get('op') == 'AddSupplier' and o['market'] == mkt and o['supplier'] == home for o in ops)
             if rng.random() < 0.35 and not home_has_rule and not any(o.get('op') == 'AddSupplier' and o['market'] == mkt and not o.get('eqn') and o['supplier'] != home for o in ops):
